@@ -137,3 +137,56 @@ Example C02_rewritten_premises_satisfiable :
   exists res, verdict (match_request []) (match_request ex_block_rules) (fun _ => false) (fun _ => false) no_ss
                 Rewrites.isort c ex_query_other = Some res /\ is_rewritten_cname res = true.
 Proof. cbv zeta. split; [vm_compute; reflexivity|]. eexists. split; vm_compute; reflexivity. Qed.
+
+(** * Rule lists switched on and off while the server runs (round 3)
+
+    The property quantifies over all rule sets; a running server goes through
+    several (POST /control/filtering/set_url enables and disables block and
+    allow lists, the engines are rebuilt).  Model/PipelineLists.v: the engines
+    in force are built from the user rules and the lists enabled NOW. *)
+From AGH Require Import Model.PipelineLists Proofs.PipelineLists.
+
+(** After set_url enabled:false for every allow list (any state before,
+    any order, any rules matched before): the allow engine matches nothing
+    and the block side is unchanged. *)
+Theorem C02_all_allow_lists_disabled_exempt_nothing :
+  forall st urls,
+  incl (map fl_url (ls_allow st)) urls ->
+  (forall rq, match_request (allow_rules (apply_changes st (disable_allow urls))) rq = (empty_result, false)) /\
+  block_rules (apply_changes st (disable_allow urls)) = block_rules st.
+Proof. exact all_allow_lists_disabled. Qed.
+Print Assumptions C02_all_allow_lists_disabled_exempt_nothing.
+
+(** No allow list enabled: the rule check applied to the question's name and
+    to every record of an answer is that of a server without allow lists. *)
+Theorem C02_no_allow_list_enabled_record_check :
+  forall st block_eng s host qt,
+  all_off (ls_allow st) ->
+  match_host (match_request (allow_rules st)) block_eng s host qt =
+  match_host (fun _ => (empty_result, false)) block_eng s host qt.
+Proof. exact no_allow_list_enabled_match_host. Qed.
+Print Assumptions C02_no_allow_list_enabled_record_check.
+
+(** The outcome of a query after two histories of changes is the same
+    whenever the same rules are in force at the end. *)
+Theorem C02_outcome_depends_on_rules_in_force :
+  forall sb par ss srt st chs chs' c up q,
+  allow_rules (apply_changes st chs) = allow_rules (apply_changes st chs') ->
+  block_rules (apply_changes st chs) = block_rules (apply_changes st chs') ->
+  ask_after sb par ss srt st chs c up q = ask_after sb par ss srt st chs' c up q.
+Proof. exact history_independent. Qed.
+Print Assumptions C02_outcome_depends_on_rules_in_force.
+
+(** Only rules of enabled lists are in force. *)
+Theorem C02_rules_in_force_come_from_enabled_lists :
+  forall ls r, In r (active ls) -> exists f, In f ls /\ fl_on f = true /\ In r (fl_rules f).
+Proof. exact active_only_enabled. Qed.
+Print Assumptions C02_rules_in_force_come_from_enabled_lists.
+
+(** Non-vacuity (the seeded scenario): user rule ||b.a.test^, one enabled
+    allow list with a rule for the same name: exempted before, not after. *)
+Example C02_allow_list_disabled_scenario :
+  snd (match_request (allow_rules exl_state) exl_rq) = true /\
+  snd (match_request (allow_rules (apply_changes exl_state (disable_allow [7]))) exl_rq) = false /\
+  snd (match_request (block_rules (apply_changes exl_state (disable_allow [7]))) exl_rq) = true.
+Proof. split; [exact exl_before | exact exl_after]. Qed.
